@@ -234,7 +234,7 @@ func checkC05(sc *Scenario) *CheckOut {
 			}
 		}
 		if longest > 63 {
-			sig = "chain>63"
+			sig = "chain>63" // (the generators exceed 63 through global middleware only)
 		}
 		out.Viol = append(out.Viol, Violation{"C05", "no-progress", fmt.Sprintf("a request did not finish within the step bound of the run (%d scheduler steps; longest chain in the scenario: %d handlers)", len(res.Steps), longest), sig})
 		return out
@@ -258,13 +258,11 @@ func checkC05(sc *Scenario) *CheckOut {
 		chainLen := len(expectedChain(res.W, nocache, rec.Method, rec.Path))
 		sig := ""
 		if chainLen > 63 {
-			sig = "chain>63" // global middleware is not counted by the registration-time handler limit
 			out.Faults["chain-over-63"]++
-			if chainLen-len(res.W.globals) > 63 {
-				// not the known finding: the documented limit itself (at most 62 group + route middleware) was not enforced
-				out.Viol = append(out.Viol, Violation{"C05", "limit-not-enforced",
-					fmt.Sprintf("client %d request %d (%s %s): registration accepted a chain of %d handlers without counting global middleware; the documented handler limit refuses 63 or more group + route middleware", rec.Task, rec.Idx, rec.Method, rec.Path, chainLen-len(res.W.globals)), ""})
-				break
+			if chainLen-len(res.W.globals) <= 63 {
+				// the known finding: global middleware, which the registration-time limit does not count, pushed the chain over 63.
+				// A chain that registration itself let grow past 63 is judged like any other (no signature).
+				sig = "chain>63"
 			}
 		} else if chainLen >= 33 {
 			out.Faults["chain-33-or-longer"]++
